@@ -309,6 +309,28 @@ def run(ctx):
     av = find_calls(ex, lambda c: norm(c.func) == "attriter")
     dc = find_calls(ex, lambda c: norm(c.func) == "dictcls")
     good = len(av) == 1 and len(dc) == 1 and len(av[0].args) == 1 and norm(av[0].args[0]) == "self._iter_attr_values(node)"
+    if not good and dc and av:
+        # every dictionary built in __export holds attriter(<the attribute items of some node>); the one for `node` itself is there;
+        # a dictionary built for a child on the spot (instead of recursing for it) is a short cut that is not followed
+        from .common import resolve_local as _rl
+
+        def _items_of(e):
+            """name of the node whose attribute items `e` denotes, through a local alias of the bound method"""
+            if isinstance(e, ast.Call) and len(e.args) == 1 and isinstance(e.args[0], ast.Name) and not e.keywords:
+                fn_ = _rl(ex, e.func) if isinstance(e.func, ast.Name) else e.func
+                if norm(fn_) in ("self._iter_attr_values", "DictExporter._iter_attr_values"):
+                    return e.args[0].id
+            return None
+        owners = []
+        for d_ in dc:
+            a_ = _rl(ex, d_.args[0]) if len(d_.args) == 1 and not d_.keywords else None
+            o_ = _items_of(a_.args[0]) if isinstance(a_, ast.Call) and norm(a_.func) == "attriter" and len(a_.args) == 1 and not a_.keywords else None
+            owners.append(o_)
+        if all(o_ is not None for o_ in owners) and owners.count("node") == 1:
+            good = True
+            if len(owners) > 1:
+                ctx.extra["X3_undecided"] = ctx.extra.get("X3_undecided") or \
+                    "C10: DictExporter.__export builds the dictionary of a child on the spot instead of recursing for it: that this happens exactly where the recursion would export no children is not followed"
     if good:
         ctx.inst("X3", ex, av[0], "attriter applied to the node's attribute items")
     else:
